@@ -608,6 +608,21 @@ func TestVerifBounded(t *testing.T) {
 		f64.const -0.25
 		f64.add
 	)
+	(global $booted (mut i32) (i32.const 0))
+	(func $boot
+		i32.const 77
+		global.set $booted
+	)
+	(start $boot)
+	(func $started (export "started") (result i32)
+		global.get $booted
+	)
+	(data (i32.const 100) "\01\02abc\ff")
+	(data (i32.const 200) "xyz")
+	(func $databytes (export "databytes") (param i32) (result i32)
+		local.get 0
+		i32.load8_u
+	)
 )
 `
 	m, closeRt = zzRuntime(t, ctl)
@@ -630,6 +645,9 @@ func TestVerifBounded(t *testing.T) {
 		{"memsize", nil, 2},
 		{"consts", nil, 0xffffffff ^ 0x8000000000000000}, // (-1 + 2^32) xor the sign bit
 		{"fconsts", nil, zzU64(1.25)},
+		{"started", nil, 77}, // the start function (a definition that is neither the first nor the last) has run
+		{"databytes", []uint64{99}, 0}, {"databytes", []uint64{100}, 1}, {"databytes", []uint64{101}, 2}, {"databytes", []uint64{102}, 'a'}, {"databytes", []uint64{104}, 'c'},
+		{"databytes", []uint64{105}, 0xff}, {"databytes", []uint64{106}, 0}, {"databytes", []uint64{200}, 'x'}, {"databytes", []uint64{202}, 'z'}, {"databytes", []uint64{203}, 0},
 	}
 	for _, c := range calls {
 		cases++
@@ -639,5 +657,5 @@ func TestVerifBounded(t *testing.T) {
 		}
 	}
 	closeRt()
-	fmt.Printf("BOUNDED {\"cases\": %d, \"bound\": \"the 123 numeric instructions of WebAssembly 1.0 on a grid of 12-18 boundary operands per type (traps excluded); 9 stores x 14 loads x 7 offsets x 2 alignments against a byte-array model; 25 calls of 14 control-flow / index-space functions (shadowed and outer labels, br_table, loops, multi-value if, calls over imports and definitions, call_indirect, named and numbered locals, globals, select, memory.size/grow, constants); assembled by Wat2Wasm, executed on the embedded engine, compared with the semantics written in Go\"}\n", cases)
+	fmt.Printf("BOUNDED {\"cases\": %d, \"bound\": \"the 123 numeric instructions of WebAssembly 1.0 on a grid of 12-18 boundary operands per type (traps excluded); 9 stores x 14 loads x 7 offsets x 2 alignments against a byte-array model; 26 calls of 15 control-flow / index-space functions (shadowed and outer labels, br_table, loops, multi-value if, calls over imports and definitions, call_indirect, named and numbered locals, globals, select, memory.size/grow, constants, a start function that is not the first definition); assembled by Wat2Wasm, executed on the embedded engine, compared with the semantics written in Go\"}\n", cases)
 }
